@@ -315,7 +315,7 @@ def run(prog, ctx):
     clamps = {"rank0": 0, "rank1": 0, "qmin": 0, "qmax": 0}
     clamp_bad = {}
     models = {}
-    for f, qname, what in ((fr, "value", "rank"), (fq, "rank", "quantile")):
+    for f, qname, what in ((fr, fr.local_name(2) or "value", "rank"), (fq, fq.local_name(2) or "rank", "quantile")):
         m = Model(prog, f)
         models[what] = m
         s = m.s
@@ -403,7 +403,7 @@ def run(prog, ctx):
     # ---------------- C10.M2 monotone across return sites: for one digest state and increasing queries, the value returned by
     # whichever site is reached must not decrease
     n_m2 = 0
-    for f, qname, what in ((fr, "value", "rank"), (fq, "rank", "quantile")):
+    for f, qname, what in ((fr, fr.local_name(2) or "value", "rank"), (fq, fq.local_name(2) or "rank", "quantile")):
         m = models[what]
         res.obligations += 1
         bad = None
@@ -522,6 +522,10 @@ def run(prog, ctx):
         cw = [s.rvalue(rv) for (ff, b, kind, place, rv, span, adt, fld) in sym.field_stores(prog, adt="tdigest::sketch::TDigestMut", field="centroids_weight", fns=[f]) if rv is not None]
         if any(C.is_bin(x, "Add") and "centroids_weight" in show(x) for x in cw):
             res.discharged += 1
+        elif cw and not all(x[0] == "const" or (x[0] == "field" and x[2] == "centroids_weight") for x in cw):
+            res.undecided += 1
+        elif not cw and any((st.get("callee") or "").startswith("tdigest::") for _, st in f.calls()):
+            res.undecided += 1
         else:
             res.violate("C10.X", "C10.X|%s|weight" % f.id, "%s does not add the merged weight to centroids_weight" % f.id, f.id)
     C.pairing_rule(res, prog, "C10.X", "tdigest::sketch::TDigestMut", "centroids", "centroids_weight", 3)
